@@ -38,7 +38,7 @@ ASSUMPTIONS = [
     "hidden (dot) directory entries are outside the alphabet: the directory check uses glob('*') semantics",
     "the full pipeline cannot run here (HMM data emptied); the ordering claim is covered at the level of the two functions it calls",
 ]
-BOUNDS = {"quick": "1-2 records x 0-2 modules", "thorough": "1-3 records x 0-3 modules"}
+BOUNDS = {"quick": "1-2 records x 0-2 modules", "thorough": "1-4 records x 0-4 modules"}
 REQUIRED_BUCKETS = {t: ["write:fault-injected", "write:clean", "write:existing-file", "dir:refused", "dir:accepted", "dir:reuse-removed-region-files",
                         "dir:created"] for t in ("quick", "thorough")}
 FAULTS = ["TypeError", "ValueError", "KeyError", "returns-set", "nested-to_json-raises", "not-module-results"]
@@ -263,7 +263,7 @@ def check_directory(subset, mode, state):
 
 
 def shards(tier):
-    max_records, max_modules = (2, 2) if tier == "quick" else (3, 3)
+    max_records, max_modules = (2, 2) if tier == "quick" else (4, 4)
     out = []
     for writer in ("write_to_file", "dump_records"):
         for n_records in range(1, max_records + 1):
